@@ -5,6 +5,7 @@ import SpyneModel.Soap
 import SpyneModel.Client
 import SpyneModel.XmlAttr
 import SpyneModel.XmlAttrSpec
+import SpyneModel.XmlSpelling
 import SpyneModel.Generated.Facts08
 import SpyneModel.Generated.Facts01
 open Lean SpyneModel SpyneModel.Xml Driver
@@ -16,6 +17,7 @@ def X := SpyneModel.Generated.factsXml
 def S := SpyneModel.Generated.factsSoap
 def CF := SpyneModel.Generated.factsClient
 def AF := SpyneModel.Generated.factsAttr
+def DF := SpyneModel.Generated.factsDoc
 
 def getObj (j : Json) (k : String) : Json :=
   match j.getObjVal? k with | .ok v => v | .error _ => Json.null
@@ -202,6 +204,22 @@ partial def nodeOf (j : Json) : Node :=
     (match j.getObjVal? "x" with | .ok a@(.arr _) => some (cpsOf a) | _ => none)
     ((getArr j "c").toList.map nodeOf)
 
+/-- Raw JSON: {ns, n, a, items: [{t: cps} | {cd: cps} | {c: cps} | {pi: [target, cps]} | {e: raw}]} -/
+partial def rawOf (j : Json) : Raw :=
+  .elem (strText j "ns") (strText j "n")
+    ((getArr j "a").toList.map (fun a =>
+      match a with
+      | .arr #[.str k, v] => (k.toList, cpsOf v)
+      | _ => ([], [])))
+    ((getArr j "items").toList.map (fun it =>
+      match it.getObjVal? "t", it.getObjVal? "cd", it.getObjVal? "c", it.getObjVal? "pi", it.getObjVal? "e" with
+      | .ok v, _, _, _, _ => RawItem.text (cpsOf v)
+      | _, .ok v, _, _, _ => RawItem.cdata (cpsOf v)
+      | _, _, .ok v, _, _ => RawItem.comment (cpsOf v)
+      | _, _, _, .ok (.arr #[.str t, v]), _ => RawItem.pi t.toList (cpsOf v)
+      | _, _, _, _, .ok e => RawItem.child (rawOf e)
+      | _, _, _, _, _ => RawItem.text []))
+
 partial def nodeJson : Node → Json
   | .elem ns n attrs text cs => Json.mkObj [
       ("ns", strJson ns), ("n", strJson n),
@@ -274,6 +292,14 @@ def step (j : Json) : Json :=
   | "xml.encode" =>
     Json.mkObj [("ok", Json.arr ((encode F cfg I (strText j "ns") (strText j "name") (tyOf (getObj j "ty"))
       (valOf (getObj j "val"))).map nodeJson).toArray)]
+  | "doc.view" => Json.mkObj [("ok", nodeJson (parserView DF (rawOf (getObj j "raw"))))]
+  | "doc.denote" => Json.mkObj [("ok", nodeJson (denote (rawOf (getObj j "raw"))))]
+  | "bytes.chunksText" =>
+    let enc : BinEnc := match getStr j "enc" with | "hex" => .hex | "urlsafe" => .urlsafe | _ => .base64
+    let chunks := (getArr j "chunks").toList.map (fun c => match c with
+      | .arr a => a.toList.map (fun x => x.getNat?.toOption.getD 0)
+      | _ => [])
+    Json.mkObj [("ok", match chunksText F DF enc chunks with | some t => textJson t | none => Json.null)]
   | "xmla.encode" =>
     Json.mkObj [("ok", Json.arr ((encodeA F (strText (getObj j "iface") "tns") (strText j "ns") (strText j "name")
       (tyAOf (getObj j "ty")) (valOf (getObj j "val"))).map nodeJson).toArray)]
